@@ -130,6 +130,11 @@ def table():
         source="the constant's own documented value, 7 % per 1e9 Julian years (IAU year)",
         doc=(r"7%", None))
     row("zero_point_luminosity", (1, 2, -3, 0, 0, 0, 0), [("IAU2015-B2", F("3.0128e28"), 0, 0)], exact=True)
+    # DORMANT rows: constants that the module defines but does not export today; they become obligations when they are exported
+    row("sun_luminosity", (1, 2, -3, 0, 0, 0, 0), [("IAU2015-B3", F("3.828e26"), 0, 0)],
+        source="IAU 2015 Resolution B3: nominal solar luminosity 3.828e26 W")
+    row("gravitational_constant", (-1, 3, -2, 0, 0, 0, 0), [("CODATA2018", G_2018, F("1.5e-15"), 0), ("CODATA2022", G_2018, F("1.5e-15"), 0)],
+        scipy="Newtonian constant of gravitation")
     row("faraday_constant", (0, 0, 1, 1, 0, -1, 0), [("SI2019", e_ * NA_, 0, 0)], exact=True, scipy="Faraday constant")
     row("vacuum_impedance", (1, 2, -3, -2, 0, 0, 0), both(Z0), scipy="characteristic impedance of vacuum")
     return T
@@ -274,9 +279,11 @@ def run(report):
     T = table()
     names = list(Q.__all__)
     report.extra["constants"] = len(names)
-    if set(names) != set(T) or len(names) != len(set(names)):
-        report.fault(f"quantities.__all__ and the reference table differ: missing rows {sorted(set(names) - set(T))}, "
-                     f"rows without constant {sorted(set(T) - set(names))}")
+    dormant = sorted(n for n in set(T) - set(names) if hasattr(Q, n))  # defined, not exported: not under the property today
+    report.extra["dormant_reference_rows"] = dormant
+    if set(names) - set(T) or set(T) - set(names) - set(dormant) or len(names) != len(set(names)):
+        report.fault(f"quantities.__all__ and the reference table differ: exported constants without a reference row {sorted(set(names) - set(T))}, "
+                     f"rows without constant {sorted(set(T) - set(names) - set(dormant))}")
     # public Quantity attributes that are defined but not exported: reported, not under contract
     not_exported = sorted(n for n, v in vars(Q).items() if not n.startswith("_") and n not in names
                           and isinstance(v, units.Quantity) and getattr(v, "__module__", "") != "sympy.physics.units")
@@ -355,9 +362,8 @@ def run(report):
             report.add(Ob(f"{oname}/value", FAULT, "gen", 0, "no `name = Quantity(...)` statement found in the source AST"))
             continue
         lits = f["literals"]
-        if len(lits) > 1:
-            report.add(Ob(f"{oname}/value", FAULT, "gen", 0, f"more than one numeric literal in the definition: {lits}"))
-            continue
+        # the precision of the literal is the FROZEN one of the pinned tree (PINNED_LIT_REL): a definition that is rewritten with
+        # more digits or as an arithmetic expression of several literals is held to the same band
         lit_rel = Fr(PINNED_LIT_REL[name]) if name in PINNED_LIT_REL else Fr(0)
         doc_rel = None
         if row["doc"]:
